@@ -384,6 +384,7 @@ func checkC06(w *World, r *Report) {
 	intInverseRule(w, r, "C06.int")
 	scannerConfigRule(w, r, "C06.token-rules")
 	printedTextNotFormatRule(w, r, "C06.text-not-format")
+	readStringTotalRule(w, r, "C06.read-string-total")
 	// what the printer writes as two values is read as two: the value an atom reads as depends on its one token
 	leafReaderRule(w, r, "C06.one-token")
 	literalTableRule(w, r, e, "C06.literals")
@@ -1570,6 +1571,7 @@ func checkC15(w *World, r *Report) {
 	keywordInjectiveRule(w, r, "C15.keyword")
 	textVerdictRule(w, r, "C15.text-verdict")
 	printEntryRule(w, r, "C15.print-entry")
+	preambleValueVerbatimRule(w, r, "C15.value-verbatim")
 	// a text with a preamble means what it says, whatever was read before it and beside it
 	noGlobalWritesRule(w, r, "C15.read-stateless", "reading a text with its preamble", append([]*ssa.Function{w.Fn("", "READ"), w.Fn("", "READWithPreamble"), w.Fn("", "AddPreamble")}, w.pkgFuncs("reader")...))
 	keyContentRule(w, r, "C15.key-content")
